@@ -2,9 +2,10 @@
 import os
 import re
 import framework as fw
+import c20_opts   # round 6: to_nsq main loop end-to-end leg + option surface (sub-builder `relay`)
 
-TIE = ["Nsq.Tie.ToolsSplit", "Nsq.Tie.ToolsRelay"]
-PROPS = ["Nsq.Props.C20"]
+TIE = ["Nsq.Tie.ToolsSplit", "Nsq.Tie.ToolsRelay"] + c20_opts.TIE
+PROPS = ["Nsq.Props.C20"] + c20_opts.PROPS
 CORPUS = os.path.join(fw.ROOT, "corpus", "C20")
 F5_KEY = "to_nsq-unterminated-final-record"
 
@@ -169,6 +170,8 @@ def run(ctx):
                 "destinations (HTTP status 200..599, stall, refused connection; nsqd OK / E_PUB_FAILED / dropped "
                 "connection / refused connection) in every mode, GET and POST, sampling 1.0/0.5/0.0, JSON filters")
     gen_ok, _ = ctx.gen("e8_relay")
+    ctx.gen(c20_opts.SPEC)
+    c20_opts.declare(ctx)
     built = []
     for mod in TIE + PROPS:
         ok, log = ctx.lean_build([mod])
@@ -183,7 +186,7 @@ def run(ctx):
     if not ctx.build_driver("e8"):
         corr_broken.append("driver drv_e8 does not build")
     # ---- to_nsq
-    b_tonsq = ctx.go_test_binary("apps/to_nsq", ["e8/tonsq_test.go", "e8/stub_nsqd.go"], "e8tonsq", pkgname="main")
+    b_tonsq = ctx.go_test_binary("apps/to_nsq", ["e8/tonsq_test.go", "e8/tonsq_e2e_test.go", "e8/stub_nsqd.go"], "e8tonsq", pkgname="main")
     if not b_tonsq:
         ctx.broken_ties.append("harness e8/tonsq_test.go does not compile against the current tree")
     elif ctx.replay_in:
@@ -221,6 +224,7 @@ def run(ctx):
                     sizes["unterminated"] += 1
             ctx.corr["to_nsq_inputs"] = sizes
             ctx.add_sample({"op": res[0][0], "impl": res[1][0]})
+        c20_opts.tonsq_e2e(ctx, b_tonsq, corr_broken)
     # ---- relays
     if not ctx.replay_in:
         b = ctx.go_test_binary("apps/nsq_to_nsq", ["e8/n2n_test.go", "e8/stub_nsqd.go"], "e8n2n", pkgname="main")
